@@ -9,6 +9,7 @@
  */
 #include <iv_event.h>
 #include <time.h>
+#define MT_SPIN_MONITOR
 #include "mt.h"
 
 #define MAXEV 64
@@ -41,7 +42,7 @@ static void event_cb(void *cookie);
 static void tk_register(struct loopthr *lt);
 static void noise_cb(void *cookie);
 
-static _Atomic long failed_regs;
+static _Atomic long failed_regs, quit_reenters;
 
 static int slot_register(struct loopthr *lt)
 {
@@ -136,6 +137,7 @@ static void event_cb(void *cookie)
 	struct loopthr *lt;
 	long en, po;
 
+	MT_CB();
 	if (i < 0 || i >= MAXEV || atomic_load(&ev[i].state) == 0) {
 		mon_viol("C01", "stale-handler", "event", "event handler invoked for slot %d which is not registered", i);
 		mon_viol("C08", "handler-of-unregistered", "event", "event handler invoked for slot %d which is not registered", i);
@@ -200,17 +202,37 @@ static void event_cb(void *cookie)
 		if (own == 0)
 			atomic_fetch_add(&reregs_after_zero, 1);
 		slot_register(lt);
+	} else if (k < 58) {		/* leave iv_main() from this handler (other events of the batch and ready descriptors stay undispatched) and re-enter */
+		atomic_fetch_add(&quit_reenters, 1);
+		mt_quit_reenter(lt);
 	}
+}
+
+static void scn_spin(struct loopthr *lt, struct vt_wait *w)
+{
+	int i, n = 0;
+	(void)w;
+	for (i = 0; i < MAXEV; i++) {
+		if (atomic_load(&ev[i].state) != 1 || ev[i].owner != lt->idx || !(ev[i].last_post_seq > ev[i].last_entry_seq))
+			continue;
+		n++;
+		mon_viol("C08", "spinning-with-undelivered-post", g_method,
+			 "loop %d went through 3000 poll rounds that reported ready descriptors without running a single handler; event %d has an undelivered post (posts %ld, handler entries %ld; loop re-entered %ld times after iv_quit from a handler)",
+			 lt->idx, i, (long)ev[i].posts, (long)ev[i].entries, lt->reentries);
+	}
+	if (n == 0)
+		mon_printf("NOTE spin without an undelivered post in loop %d\n", lt->idx);
 }
 
 static void noise_cb(void *cookie);
 static struct iv_timer *far_timer[MAXLOOP];
-static void far_cb(void *c) { struct loopthr *lt = c; free(far_timer[lt->idx]); far_timer[lt->idx] = NULL; }
+static void far_cb(void *c) { struct loopthr *lt = c; MT_CB(); free(far_timer[lt->idx]); far_timer[lt->idx] = NULL; }
 
 static void noise_cb(void *cookie)
 {
 	struct loopthr *lt = cookie;
 	char buf[256];
+	MT_CB();
 	while (__real_read(noise[lt->idx][0], buf, sizeof(buf)) > 0)
 		;
 	atomic_fetch_add(&noise_entries, 1);
@@ -291,6 +313,7 @@ static void tk_cb(void *c)
 {
 	struct tkslot *k = c;
 	struct loopthr *lt = &loops[k->owner];
+	MT_CB();
 	if (!pthread_equal(pthread_self(), lt->th))
 		mon_viol("C06", "task-wrong-thread", g_method, "a task registered by loop %d ran in another thread", k->owner);
 	if (atomic_exchange(&k->state, 2) != 1)
@@ -485,11 +508,11 @@ int main(int argc, char **argv)
 		run_case(i, seed);
 	mon_printf("STAT method=%s cases=%llu posts=%llu handler_entries=%llu remote_posts=%llu owner_posts=%llu cases_with_overlapping_posts=%llu "
 		   "obligations=%llu discharged=%llu unregistered_while_pending=%llu events_registered=%llu kick_object_recreated=%llu "
-		   "noise_writes=%llu noise_handler_entries=%llu tasks_registered=%ld tasks_ran=%ld failed_registrations_under_fault=%ld final_quiescences=%llu shim_quiescences=%llu time_advances=%llu perturb_yield=%llu perturb_sleep=%llu threads_created=%llu injected=%llu violations=%d\n",
+		   "noise_writes=%llu noise_handler_entries=%llu tasks_registered=%ld tasks_ran=%ld failed_registrations_under_fault=%ld quit_and_reenter=%ld final_quiescences=%llu shim_quiescences=%llu time_advances=%llu perturb_yield=%llu perturb_sleep=%llu threads_created=%llu injected=%llu violations=%d\n",
 		   g_method, (unsigned long long)S.cases, (unsigned long long)S.posts, (unsigned long long)S.entries,
 		   (unsigned long long)S.remote, (unsigned long long)S.self, (unsigned long long)S.overlaps_cases,
 		   (unsigned long long)S.obligations, (unsigned long long)S.discharged, (unsigned long long)S.unreg_pending,
-		   (unsigned long long)S.regs, (unsigned long long)S.zero_cross, (unsigned long long)noise_writes, (unsigned long long)noise_entries, (long)tasks_registered, (long)tasks_ran, (long)failed_regs, (unsigned long long)S.quiescences,
+		   (unsigned long long)S.regs, (unsigned long long)S.zero_cross, (unsigned long long)noise_writes, (unsigned long long)noise_entries, (long)tasks_registered, (long)tasks_ran, (long)failed_regs, (long)quit_reenters, (unsigned long long)S.quiescences,
 		   (unsigned long long)vt_stats.quiescences, (unsigned long long)vt_stats.time_advances,
 		   (unsigned long long)vt_stats.perturb_yield, (unsigned long long)vt_stats.perturb_sleep,
 		   (unsigned long long)vt_stats.threads_created, (unsigned long long)vt_stats.injected, mon_viol_total);
